@@ -219,7 +219,7 @@ pub fn c03_desc_%(i)d() {
 ''' % dict(i=gi // 6, ops=" ".join(o for _, o in grp), body=body)
     # dispatcher: one harness per (operator, concrete operand count) and per (operator, bare operand shape)
     quick_arr = {("==", 1), ("==", 2), ("max", 0), ("var", 3), ("reduce", 3), ("!", 2), ("<", 4)}
-    quick_una = {("!", 2), ("==", 0), ("var", 3), ("if", 2)}
+    quick_una = {("!", 2), ("!", 0), ("==", 1), ("var", 3), ("if", 2)}
     tymap = {"OPERATOR_MAP": "Operator", "DATA_OPERATOR_MAP": "DataOperator", "LAZY_OPERATOR_MAP": "LazyOperator"}
     for (t, o) in allops:
         for n in range(0, 7):
@@ -240,7 +240,7 @@ pub fn c03_array_%(id)s_%(n)d() {
 ''' % dict(id=opid(o), n=n, tier=tr, ty=tymap[t], t=t, o=o, unw=max(len(o) + 2, n + 2, 4))
         for sh in range(4):
             tr = "quick" if (o, sh) in quick_una else "thorough"
-            if tr == "thorough" and sh in (0, 3) and o not in ("var", "!", "cat"):
+            if tr == "thorough" and sh in (0, 3) and o not in ("var", "!", "cat", "merge", "!!", "max", "if"):
                 continue
             out += '''
 //@ harness: c03_unary_%(id)s_%(sh)d tier=%(tier)s timeout=900 kind=main mem=8
@@ -730,7 +730,7 @@ pub fn c15_merge_%(k)d() {
 def gen_c01(tier):
     out = prelude("c01_op.rs")
     names = ["null", "bool", "i64", "u64", "f64"]
-    quick_pairs = {(4, 4), (2, 3), (1, 4), (0, 2), (3, 1)}
+    quick_pairs = {(4, 4), (2, 3), (1, 4), (0, 2), (3, 1), (2, 2)}
     for a in range(5):
         for b in range(5):
             out += '''
@@ -747,8 +747,24 @@ pub fn c01_helpers_%(na)s_%(nb)s() {
     helpers_case(%(a)d, %(b)d);
 }
 ''' % dict(na=names[a], nb=names[b], a=a, b=b, tier="quick" if (a, b) in quick_pairs else "thorough")
+    import oracle_js
+    corpus = oracle_js.S2N_CORPUS + oracle_js.TOTALITY_EXTRA
+    for gi in range(0, len(corpus), 12):
+        grp = corpus[gi:gi + 12]
+        body = "".join('    let _ = js_op::str_to_number(%s);\n' % rust_str(x) for x in grp)
+        out += '''
+//@ harness: c01_s2n_total_%(i)d tier=quick timeout=900 kind=main mem=6
+//@ encodes: js_op::str_to_number::<&str> incl. parse_radix_digits and core dec2flt
+//@ bound: corpus strings %(doc)s: returns, no panic / arithmetic overflow (constant-folded execution per string)
+#[cfg_attr(kani, kani::proof)]
+#[cfg_attr(kani, kani::unwind(80))]
+#[cfg_attr(kani, kani::stub(std::fmt::format, stub_format))]
+#[cfg_attr(verif_replay, test)]
+pub fn c01_s2n_total_%(i)d() {
+%(body)s}
+''' % dict(i=gi // 12, doc=" ".join(repr(x)[:24] for x in grp).replace("\n", " "), body=body)
     eager = OPS["OPERATOR_MAP"]
-    quick_ops = {"<", "substr", "-", "/", "in", "!", "max", "+", "cat", "merge", "==="}
+    quick_ops = {"<", "substr", "-", "/", "%", "in", "!", "max", "+", "cat", "merge", "==="}
     for o in eager:
         if o == "log":
             continue     # println! (stdout lock, formatting) is outside what CBMC encodes
